@@ -202,6 +202,21 @@ pub fn run(ctx: &mut Ctx) {
         check_one(ctx, &gen::huge_payload_doc());
     }
 
+    // 2c. strings beyond 2^18 bytes made of 1- and 2-byte characters, at three alignments (a
+    // character straddles every power-of-two block boundary in one of them)
+    if ctx.shard == 1 % ctx.nshards && !ctx.miri {
+        for pre in ["", "x", "xy"] {
+            ctx.next_case();
+            ctx.count("long_multibyte_strings");
+            let mut s = String::with_capacity(300_000);
+            s.push_str(pre);
+            while s.len() < 290_000 {
+                s.push_str("a\u{e9}\u{65e5}");
+            }
+            check_one(ctx, &Tree::Arr(vec![Tree::Str(s.clone()), Tree::Obj(vec![(s, Tree::Num(Num::U(1)))])]));
+        }
+    }
+
     // 3. random documents
     let n = if ctx.miri { ctx.miri_cases(60) } else { ctx.budget(2_000_000, 40_000_000) };
     for i in 0..n {
@@ -225,6 +240,12 @@ pub fn run(ctx: &mut Ctx) {
         check_one(ctx, &t);
         if i % 8 == 3 {
             api_built(ctx, &mut rng);
+        }
+        if i % 16 == 5 {
+            // sibling objects whose keys are the same bytes cut at different places
+            let (o1, o2) = gen::resplit_objects(&mut rng);
+            check_one(ctx, &Tree::Arr(vec![o1.clone(), o2.clone(), o1.clone()]));
+            check_one(ctx, &Tree::Obj(vec![("p".into(), o1), ("q".into(), o2)]));
         }
     }
 }
